@@ -187,6 +187,9 @@ impl<R: Read + Seek> PMTiles<R> {
     /// # Errors
     /// See [`get_tile_by_id`](Self::get_tile_by_id) for details on possible errors.
     pub fn get_tile(&mut self, x: u64, y: u64, z: u8) -> Result<Option<Vec<u8>>> {
+        if !Self::is_in_grid(x, y, z) {
+            return Ok(None);
+        }
         self.get_tile_by_id(tile_id(z, x, y))
     }
 }
@@ -220,11 +223,20 @@ impl<R: AsyncRead + AsyncReadExt + Send + Unpin + AsyncSeekExt> PMTiles<R> {
     /// # Errors
     /// See [`get_tile_by_id_async`](Self::get_tile_by_id_async) for details on possible errors.
     pub async fn get_tile_async(&mut self, x: u64, y: u64, z: u8) -> Result<Option<Vec<u8>>> {
+        if !Self::is_in_grid(x, y, z) {
+            return Ok(None);
+        }
         self.get_tile_by_id_async(tile_id(z, x, y)).await
     }
 }
 
 impl<R> PMTiles<R> {
+    /// Returns `true` if `x`/`y` denote a tile of zoom level `z` (and `z` is a
+    /// zoom level whose tile ids fit into 64 bits).
+    const fn is_in_grid(x: u64, y: u64, z: u8) -> bool {
+        z < 32 && (x >> z) == 0 && (y >> z) == 0
+    }
+
     fn parse_meta_data(val: JSONValue) -> Result<JSONMap<String, JSONValue>> {
         let JSONValue::Object(map) = val else {
             return Err(std::io::Error::new(
